@@ -182,6 +182,10 @@ func (e *Variable) Assign(newVal reflect.Value, dataContext IDataContext, memory
 		if err == nil {
 			dataContext.IncrementVariableChangeCount()
 			memory.ResetVariable(e)
+			if e.Variable.ValueNode.IsMap() {
+				// a member of a map (a JSON object) may also be named by a selector expression: forget what mentions the map
+				memory.ResetVariable(e.Variable)
+			}
 		}
 
 		return err
@@ -201,6 +205,8 @@ func (e *Variable) Assign(newVal reflect.Value, dataContext IDataContext, memory
 			err := e.Variable.ValueNode.SetArrayValueAt(int(e.ArrayMapSelector.Value.Int()), newVal)
 			if err == nil {
 				memory.ResetVariable(e)
+				// the same element may be named by another selector expression: forget what mentions the array
+				memory.ResetVariable(e.Variable)
 			}
 
 			return err
@@ -209,6 +215,8 @@ func (e *Variable) Assign(newVal reflect.Value, dataContext IDataContext, memory
 			err := e.Variable.ValueNode.SetMapValueAt(e.ArrayMapSelector.Value, newVal)
 			if err == nil {
 				memory.ResetVariable(e)
+				// the same entry may be named by another selector expression: forget what mentions the map
+				memory.ResetVariable(e.Variable)
 			}
 
 			return err
